@@ -130,8 +130,11 @@ class Contract:
     def __init__(self, module, file, qual, params, ret=None, yields=None, requires=(), ensures=(), raises=None,
                  raises_ensures=None, locals=None, loops=None, calls=None, globals=None, modifies=(), defaults=None,
                  ignore_kwargs=False, star=None, exc_parents=None, comp_types=None, canaries=(), properties=(),
-                 trusted=False, note="", receiver_classes=None, use=()):
+                 trusted=False, note="", receiver_classes=None, use=(), inputs=None, native_fn=None, shards=1):
+        self.shards = shards
         self.use = list(use)
+        self.native_inputs = inputs
+        self.native_fn = native_fn
         self.module = module
         self.file = file
         self.qual = qual
@@ -227,8 +230,9 @@ def gen_function_vcs(contract, registry, feasible=None, extra_post=None):
     """symbolically execute the real function; returns (ctx, info).  extra_post replaces `ensures` (canaries)."""
     contract.module.U.finalize()
     node, seg = contract.source()
-    number_loops(node)
+    n_loops = number_loops(node)
     ctx = Ctx(contract, contract.ns, feasible)
+    ctx.n_loops = n_loops
     ex = StmtExec(ctx, registry)
     st = State()
     for p, ty in contract.params.items():
